@@ -61,28 +61,39 @@ RegVariants(p) == {
   <<"file", <<>>, "reg">>, <<"file", <<LF>>, "reg">>, <<"file", ZZ, "reg">>, <<"file", HDRFRAG, "reg">>,
   <<"file", MAGICTXT, "reg">>,
   <<"gz", DefaultData(p), "reg">>, <<"gz", <<>>, "reg">>,
-  <<"truncgz", LONG, "reg">>, <<"crcgz", DefaultData(p), "reg">>, <<"badgz", <<>>, "reg">> }
+  <<"truncgz", LONG, "reg">>, <<"crcgz", DefaultData(p), "reg">>, <<"badgz", <<>>, "reg">>,
+  \* several members: cut inside the first line; empty member in the middle; empty member first
+  <<"mgz", DefaultData(p), "reg", <<2, Len(DefaultData(p)) - 2>> >>,
+  <<"mgz", LONG, "reg", <<4, 0, Len(LONG) - 4>> >>,
+  <<"mgz", DefaultData(p), "reg", <<0, Len(DefaultData(p))>> >> }
 \* the same contents arriving through something that cannot be rewound and reports size 0
 PipeVariants(p) == {
   <<"file", <<>>, "pipe">>, <<"file", DefaultData(p), "pipe">>, <<"file", HDRFRAG, "pipe">>,
   <<"file", MAGICTXT, "pipe">>, <<"file", HDRNAME, "pipe">>,
   <<"gz", DefaultData(p), "pipe">>, <<"gz", <<>>, "pipe">>,
-  <<"truncgz", LONG, "pipe">>, <<"crcgz", DefaultData(p), "pipe">>, <<"badgz", <<>>, "pipe">> }
+  <<"truncgz", LONG, "pipe">>, <<"crcgz", DefaultData(p), "pipe">>, <<"badgz", <<>>, "pipe">>,
+  <<"mgz", LONG, "pipe", <<4, 0, Len(LONG) - 4>> >> }
+MemOf(v) == IF Len(v) >= 4 THEN v[4] ELSE <<>>
 PipeSlots == IF Level >= 2 THEN Slots ELSE {P_a, P_f}
 Variants(p) == RegVariants(p) \cup (IF p \in PipeSlots THEN PipeVariants(p) ELSE {})
 
 TreeWith(slot, v) ==
-  LET nd(p) == IF p = slot THEN [p |-> p, k |-> v[1], data |-> v[2], tr |-> v[3]]
-               ELSE [p |-> p, k |-> "file", data |-> DefaultData(p), tr |-> "reg"]
-      dir(p) == [p |-> p, k |-> "dir", data |-> <<>>, tr |-> "reg"] IN
-  << nd(P_a), [p |-> P_ab, k |-> "file", data |-> AB_DATA, tr |-> "reg"], dir(P_d),
+  LET nd(p) == IF p = slot THEN [p |-> p, k |-> v[1], data |-> v[2], tr |-> v[3], mem |-> MemOf(v)]
+               ELSE [p |-> p, k |-> "file", data |-> DefaultData(p), tr |-> "reg", mem |-> <<>>]
+      dir(p) == [p |-> p, k |-> "dir", data |-> <<>>, tr |-> "reg", mem |-> <<>>] IN
+  << nd(P_a), [p |-> P_ab, k |-> "file", data |-> AB_DATA, tr |-> "reg", mem |-> <<>>], dir(P_d),
      nd(P_c), dir(P_e), nd(P_f), dir(P_g) >>
 T0 == TreeWith(<<>>, <<"file", <<>>, "reg">>)
 \* the default tree plus one external input
 ExtPaths == IF Level >= 2 THEN {DevStdin, DevFd3} ELSE {DevStdin}
 ExtVariants(p) ==
   PipeVariants(P_a) \cup {<<"file", A_DATA, "reg">>, <<"file", MAGICTXT, "reg">>, <<"gz", A_DATA, "reg">>}
-TreeExt(p, v) == Append(T0, [p |-> p, k |-> v[1], data |-> v[2], tr |-> v[3]])
+TreeExt(p, v) == Append(T0, [p |-> p, k |-> v[1], data |-> v[2], tr |-> v[3], mem |-> MemOf(v)])
+\* the default tree plus one non-regular entry: in d/ before c, between c and e/, between e/ and g/, after g/;
+\* in d/e/ before and after f
+SpecialPos == { <<n_d, <<98>> >>, <<n_d, n_d>>, <<n_d, n_f>>, <<n_d, <<104>> >>,
+                <<n_d, n_e, n_a>>, <<n_d, n_e, <<122>> >> }
+SpecialVariants == {<<"file", A_DATA, "pipe">>} \cup {<<k, <<>>, "reg">> : k \in SpecialKinds}
 
 \* the argument forms
 gs == <<Star>>
@@ -106,20 +117,27 @@ StdinVariants == {[k |-> "data", data |-> A_DATA], [k |-> "data", data |-> <<>>]
                   [k |-> "dir", data |-> <<>>]}
 NoStdin == [k |-> "data", data |-> <<>>]
 
+SpecialTrees == UNION {{TreeExt(p, v) : v \in SpecialVariants} : p \in SpecialPos}
 Trees == {T0} \cup UNION {{TreeWith(s, v) : v \in Variants(s)} : s \in Slots}
               \cup UNION {{TreeExt(p, v) : v \in ExtVariants(p)} : p \in ExtPaths}
+              \cup SpecialTrees
 \* the slot in which a tree differs from T0 (<<>> for T0)
 VariedSlot(t) == LET S == {i \in DOMAIN t : i > Len(T0) \/ t[i] # T0[i]} IN IF S = {} THEN <<>> ELSE t[CHOOSE i \in S : TRUE].p
-HasPipe(t) == \E i \in DOMAIN t : t[i].tr = "pipe"
 
+HasPipe(t) == \E i \in DOMAIN t : t[i].tr = "pipe"
 \* the scenarios over the trees TS, argument lists AL and commands CS
 FileScenariosIn(TS, AL, CS) ==
   {sc \in [tree : TS, stdin : {NoStdin}, args : AL, rec : BOOLEAN, gz : BOOLEAN,
            readers : {1, 2}, cmd : CS, nofile : {0}] :
      /\ InDomain(sc)
      /\ (Level < 2 /\ sc.cmd = "histo") => sc.readers = 2     \* quick: the histogram leg with one readers setting
-     \* a varied slot that no argument mentions is the same run as with T0
-     /\ VariedSlot(sc.tree) # <<>> => \E i \in DOMAIN Mentions(sc) : Mentions(sc)[i].p = VariedSlot(sc.tree)}
+     \* a varied slot that no argument mentions (no -R walk passes) is the same run as with T0
+     /\ VariedSlot(sc.tree) # <<>> => \/ \E i \in DOMAIN Mentions(sc) : Mentions(sc)[i].p = VariedSlot(sc.tree)
+                                       \/ (sc.tree \in SpecialTrees /\ VariedSlot(sc.tree) \in MayPaths(sc))
+     \* quick: the non-regular entries with one command
+     /\ (Level < 2 /\ sc.tree \in SpecialTrees) => sc.cmd = "filter" /\ (sc.readers = 1 \/ HasPipe(sc.tree))
+     \* thorough: the non-regular entries with the argument forms that walk (or stay next to) them
+     /\ (Level >= 2 /\ sc.tree \in SpecialTrees) => \A i \in DOMAIN sc.args : sc.args[i] \in {Forms[j] : j \in {1, 3, 5, 6, 7, 8, 13, 17}}}
 FileScenariosOf(TS) == FileScenariosIn(TS, ArgLists, {"filter", "histo"})
 StdinScenarios ==
   [tree : {T0}, stdin : StdinVariants, args : {<<>>, <<DashArg>>}, rec : {FALSE}, gz : {FALSE},
